@@ -71,7 +71,7 @@ type c07Case struct {
 	// "decls-removed" (the import declarations were deleted from Decls, File.Imports still lists them: the
 	// source then has no imports) | "imports-cleared" (File.Imports emptied, declarations untouched)
 	Stale   string `json:"stale,omitempty"`
-	LocalIs int    `json:"local_is"` // -1 unrelated, else index of the path that is the local package
+	LocalIs int    `json:"local_is"` // -1 unrelated, i: path i is the local package, 100+i: path i + "_test" is, 200+i: path i + "/internal" is
 }
 
 func init() {
@@ -79,7 +79,7 @@ func init() {
 		ID:    "C07",
 		Level: "model_checking",
 		Rule: "every configuration: used-path set (32 subsets of 5 paths incl. two packages named x and one whose name differs from its path) x 13 existing import shapes (none, single, block, two blocks, cgo alone and cgo leading a group, aliases/blank/dot, commented groups, same path twice, alias equal to name, raw-string and escaped path literals) " +
-			"x FileRestorer.Alias override {none} + path x {new id, id of another package, the suffixed name a conflict would generate (x1), an alias another source import already uses, '.', '', '_'} (and a second simultaneous override on a later path: quick {new id equal to the first override's, name of another package}, thorough the whole alphabet) x resolver {exact, lacking unused paths} x local path {unrelated, equal to a used path}; the Restorer built by the constructor or configured through its fields; trees whose File.Imports and import declarations disagree (declarations deleted by hand, File.Imports emptied); every shape also restored as the second file of a Restorer that restored another shape first (with and without an alias override there); references are path-carrying identifiers in call, type and composite-literal positions; " +
+			"x FileRestorer.Alias override {none} + path x {new id, id of another package, the suffixed name a conflict would generate (x1), an alias another source import already uses, '.', '', '_'} (and a second simultaneous override on a later path: quick {new id equal to the first override's, name of another package}, thorough the whole alphabet) x resolver {exact, lacking unused paths} x local path {unrelated, equal to a used path, a used path + '_test', a package below a used path}; the Restorer built by the constructor or configured through its fields; trees whose File.Imports and import declarations disagree (declarations deleted by hand, File.Imports emptied); every shape also restored as the second file of a Restorer that restored another shape first (with and without an alias override there); references are path-carrying identifiers in call, type and composite-literal positions; " +
 			"oracle independent of updateImports: re-parse the output, rebuild the import table from its import declarations and the resolver map; binding of every reference, exact import set, distinct names, name preference override > source alias > resolved name (+ decimal suffix on conflict), " +
 			"stable order/comments/group separation when nothing is added, and go/types acceptance; state = configuration; non-trivial = configuration with at least one used path",
 		Assumptions: []string{"package i exports Fi/Ti/Vi so that a reference name identifies its package", "go/types (FakeImportC) is the acceptance oracle"},
@@ -121,8 +121,10 @@ func init() {
 					}
 					for _, ov := range ovs {
 						for _, missing := range []bool{false, true} {
-							for local := -1; local < len(c07Paths); local++ {
-								if local >= 0 && (used&(1<<local) == 0 || ovp >= 0 && !ctx.Thorough()) {
+							// local path: unrelated, equal to a used path, or merely similar to one (the path of its external
+							// test package, a package below it): only the equal one makes references local
+							for _, local := range c07Locals {
+								if local >= 0 && (used&(1<<(local%100)) == 0 || ovp >= 0 && !ctx.Thorough()) {
 									continue
 								}
 								cs := c07Case{Used: used, Shape: shape, OvPath: ovp, Ov: ov, Missing: missing, LocalIs: local}
@@ -183,6 +185,9 @@ func init() {
 		},
 	})
 }
+
+// local package: -1 unrelated, i = path i itself, 100+i = path i + "_test", 200+i = path i + "/internal"
+var c07Locals = []int{-1, 0, 1, 2, 3, 4, 100, 101, 102, 103, 104, 200, 202}
 
 var c07Ref = regexp.MustCompile(`^[FTV]([0-9])$`)
 
@@ -246,7 +251,12 @@ func c07Check(cs c07Case) core.Outcome {
 		return core.Outcome{Key: key, Desc: string(b) + " shape=" + c07Shapes[cs.Shape].Name + "\n" + fmt.Sprintf(f, a...)}
 	}
 	local := "example.com/unrelated"
-	if cs.LocalIs >= 0 {
+	switch {
+	case cs.LocalIs >= 200:
+		local = c07Paths[cs.LocalIs-200] + "/internal"
+	case cs.LocalIs >= 100:
+		local = c07Paths[cs.LocalIs-100] + "_test"
+	case cs.LocalIs >= 0:
 		local = c07Paths[cs.LocalIs]
 	}
 	used := map[string]bool{}
@@ -638,7 +648,7 @@ func c07Check(cs c07Case) core.Outcome {
 		}
 	}
 	// the output type-checks (references to the local package are declared nowhere: skip then)
-	if cs.LocalIs < 0 {
+	if cs.LocalIs < 0 || cs.LocalIs >= 100 {
 		if _, err := c07W.Check(local, map[string]string{"a.go": out}); err != nil {
 			return fail("output-does-not-type-check", "%s", desc(err.Error()))
 		}
